@@ -239,6 +239,10 @@ C15_Cells ==
   \cup
   {[clause |-> "expanded-order", order |-> n, qed |-> q, running |-> r, method |-> "expanded", nf |-> f] :
      n \in Orders, q \in 0..2, r \in BOOLEAN, f \in 3..5}
+  \cup   \* the local law far from the reference (1-4 units of ln mu^2 away, same patch): with the value at the reference
+         \* and continuity this makes the returned function THE solution, not only a solution near the reference
+  {[clause |-> "rge-far", order |-> n, qed |-> q, running |-> r, method |-> "exact", nf |-> f] :
+     n \in Orders, q \in 0..2, r \in BOOLEAN, f \in 3..5}
   \cup   \* with running QED the number of leptons changes at the tau mass inside a patch: the local
          \* law at a target on the OTHER side of m_tau from the reference (2 leptons below, 3 above)
   {[clause |-> cl, order |-> n, qed |-> q, running |-> TRUE, method |-> "exact", nf |-> f] :
@@ -256,6 +260,7 @@ C15_Req(c) ==
   CASE c.clause = "ref" -> Dec(99, "bitwise")
     [] c.clause = "monotone" -> Dec(99, "no-inversion")
     [] c.clause = "rge" -> Dec(7, "local-rge-1e-7")
+    [] c.clause = "rge-far" -> Dec(3, "local-rge-far-from-the-reference-1e-3")
     [] c.clause \in {"rge-tau-down", "rge-tau-up"} -> Dec(3, "local-rge-across-tau-1e-3")
     [] c.clause \in {"tau-cont-down", "tau-cont-up"} -> Dec(3, "continuous-at-the-tau-mass")
     [] c.clause = "expanded-order" -> Exp(100 * C15_ExpandedOrder(c) - 35, 9000, "beyond-working-order")
